@@ -12,7 +12,7 @@ CONSTANTS MaxTok, Tokens, EmitOn
 VARIABLES b, n
 vars == <<b, n>>
 
-E10 == {<<226>>, <<128>>, <<185>>, <<186>>, <<97>>, <<SP>>, <<NL>>, <<Q>>, StartM, EndM}
+E10 == {<<226>>, <<128>>, <<185>>, <<186>>, <<97>>, <<SP>>, <<NL>>, <<Q>>, StartM, EndM, RuneErrorBytes, <<194, 186>>}
 E7  == {<<226>>, <<128>>, <<185>>, <<97>>, <<NL>>, StartM, EndM}
 
 Init == b = <<>> /\ n = 0
